@@ -9,6 +9,8 @@ ROOT = os.path.dirname(os.path.dirname(os.path.abspath(__file__)))
 PROPS = {}
 for f in sorted(glob.glob(os.path.join(ROOT, "props", "C*.json"))):
     PROPS[os.path.basename(f)[:-5]] = json.load(open(f))
+# properties whose checks are finished and claimed in MANIFEST.json (others can be run by hand while in progress)
+ENABLED = [l.strip() for l in open(os.path.join(ROOT, "props", "ENABLED")) if l.strip() and not l.startswith("#")]
 NOT_APPLICABLE = {}
 na = os.path.join(ROOT, "props", "not_applicable.json")
 if os.path.exists(na):
